@@ -482,7 +482,12 @@ def w_geometry(ctx, rng, i):
         if _amax(R @ R.T - np.eye(3)) > 1e-9 or abs(np.linalg.det(R) - 1.0) > 1e-9:
             ctx.fail("geometry_changes_under_rigid_motion", cls="Rotation", mech="3D:rotation_built_from_a_unit_quaternion_is_not_a_rotation", err=_amax(R @ R.T - np.eye(3)))
     rigid = rot.compose_before(Translation(tvec))
-    if rng.random() < 0.35:
+    chained = bool(rng.random() < 0.2)
+    if chained:
+        # the same motion held as a chain of its two steps
+        from menpo.transform import TransformChain
+        rigid = TransformChain([rot, Translation(tvec)])
+    if chained or rng.random() < 0.35:
         # the motion has a past of non-mutating uses (a scaled version was derived from it, its inverse taken ...)
         from vf import tx as _tx
         with taps.quiet():
@@ -497,7 +502,7 @@ def w_geometry(ctx, rng, i):
             m.tri_normals(); m.vertex_normals()
     if rng.random() < 0.3:
         m.landmarks["marks"] = gen.shape(rng, "PointCloud", d=d, n=4)          # an annotated mesh moves like any other
-    if rng.random() < 0.25:
+    if rng.random() < 0.25 and not chained:
         # the same rigid motion written as a plain homogeneous matrix in another scaling (k * H stands for the same map)
         from menpo.transform import Homogeneous
         rigid = Homogeneous(np.asarray(rigid.h_matrix, dtype=float) * [2.0, -1.0, 0.25, 5.0][rng.integers(0, 4)])
